@@ -540,6 +540,12 @@ def observe(cfg, want):
             MbcS, RbcS = P.boundaryConditionsTerm(bcs)
             obs["MbcS"] = mat_entries(MbcS, c.dims)
             obs["RbcS"] = vec_nested(RbcS, c.dims)
+        if "r_source" in W:
+            # beta*phi = gamma alone: cell-local solution gamma/beta (beta shifted by one to be non-zero)
+            vs_ = P.CellVariable(c.m, 0.0)
+            P.solvePDE(vs_, [P.linearSourceTerm(P.CellVariable(c.m, to_float_array(cfg["beta"]) + 1.0)),
+                             P.constantSourceTerm(P.CellVariable(c.m, to_float_array(cfg["gamma"])))])
+            obs["r_source"] = lift.lift_array(np.asarray(vs_.value))[0]
         if W & {"f_ctor", "f_apply", "f_solve", "f_explicit", "profile"}:
             inner = interior(c.phi_full)
             v = P.CellVariable(c.m, inner.copy(), c.bc)
